@@ -258,7 +258,10 @@ def run_case(case, rng):
         fresh = Bd.build(sp, rep if not explicit else rep, shuffle_rng=None)
         full = set(expected_closure)
         S0 = {s for s, p in sp.init if p > 0}
-        maxsucc = max([len({u for a in sp.acts[s] for u, q in sp.P[(s, a)] if q > 0}) for s in full if s not in sp.flag] or [0])
+        S0_pre = set(S0)
+        # (initial states are expanded even when they are flagged absorbing, so they count here too)
+        maxsucc = max([len({u for a in sp.acts[s] for u, q in sp.P[(s, a)] if q > 0})
+                       for s in (set(full) | S0_pre) if (s not in sp.flag or s in S0_pre)] or [0])
         for k in sorted({0, 1, 2, rng.randint(1, max(1, len(full))), len(full), len(full) + 3}):
             Rk = case.call("reachable_states(max_states)", lambda: set(fresh.reachable_states(max_states=k)))
             case.count("max_states_calls")
